@@ -51,6 +51,9 @@ type OCall struct {
 	S    string `json:"s,omitempty"`
 	I    int    `json:"i,omitempty"`
 	Args []OArg `json:"args,omitempty"`
+	// Alt: the call is made through the deprecated spelling of the method
+	// (Paren for SetParen, Encap for SetEncap, ...): same behaviour
+	Alt bool `json:"alt,omitempty"`
 }
 
 type OptInput struct {
@@ -255,6 +258,45 @@ func (r *optRun) exec(c OCall) {
 	st := triArgs(c.T)
 	switch c.Op {
 	case "setopt":
+		if c.Alt {
+			done := true
+			if r.isStack {
+				switch c.O {
+				case "paren":
+					r.s.Paren(st...)
+				case "fold":
+					r.s.Fold(st...)
+				case "nopad":
+					r.s.NoPadding(st...)
+				case "leadonce":
+					r.s.LeadOnce(st...)
+				case "neg":
+					r.s.NegativeIndices(st...)
+				case "fwd":
+					r.s.ForwardIndices(st...)
+				case "nonest":
+					r.s.NoNesting(st...)
+				case "ronly":
+					r.s.ReadOnly(st...)
+				default:
+					done = false
+				}
+			} else {
+				switch c.O {
+				case "paren":
+					r.c.Paren(st...)
+				case "nopad":
+					r.c.NoPadding(st...)
+				case "nonest":
+					r.c.NoNesting(st...)
+				default:
+					done = false
+				}
+			}
+			if done {
+				return
+			}
+		}
 		if r.isStack {
 			switch c.O {
 			case "paren":
@@ -307,8 +349,20 @@ func (r *optRun) exec(c OCall) {
 	case "setdelim":
 		r.s.SetDelimiter(c.Args[0].value())
 	case "setsym":
-		r.s.SetSymbol(anyValues(c.Args)...)
+		if c.Alt {
+			r.s.Symbol(anyValues(c.Args)...)
+		} else {
+			r.s.SetSymbol(anyValues(c.Args)...)
+		}
 	case "setencap":
+		if c.Alt {
+			if r.isStack {
+				r.s.Encap(anyValues(c.Args)...)
+			} else {
+				r.c.Encap(anyValues(c.Args)...)
+			}
+			return
+		}
 		if r.isStack {
 			r.s.SetEncap(anyValues(c.Args)...)
 		} else {
@@ -743,7 +797,19 @@ func randCall(r *Rng, cond bool) OCall {
 // ones so that the evaluation shards are of similar weight.
 func genOptions(ctx *Ctx, emit0 func(any, string)) {
 	var exh, rnd []any
+	altRng := ctx.Rng.Fork()
 	emit := func(in any, source string) {
+		// a fifth of the option calls go through the deprecated spelling of the method
+		if oi, ok := in.(OptInput); ok {
+			ops := append([]OCall{}, oi.Ops...)
+			for i := range ops {
+				if (ops[i].Op == "setopt" || ops[i].Op == "setsym" || ops[i].Op == "setencap") && altRng.Pct(20) {
+					ops[i].Alt = true
+				}
+			}
+			oi.Ops = ops
+			in = oi
+		}
 		if source == "exhaustive" {
 			exh = append(exh, in)
 		} else {
